@@ -57,6 +57,26 @@ def run(ctx):
     r3 = adapters.run_adapter(ad, [b for b in scaled if ad.in_domain(b)], rng, repeat_frac=0)
     r3["failures"] += rel_fail
     r3["evaluations"] += 2 * len(scaled)
+    # fractional / sub-second time axes given as plain epoch seconds (float list / float array) instead of datetime64:
+    # the windows are built on the times mapdates() returns, which must keep the fraction
+    import core
+    import crosscut as cc
+    sub = [c for c in dom if c.get("unit_ns") and c["tp"] not in ("absent", None)]
+    for c in (sub if len(sub) <= 150 else rng.sample(sub, 150)):
+        base, _ = ad.impl(c)
+        for tc in ("epoch_s_list", "epoch_s_array"):
+            tr, applied = cc.carrier_transform(None, tc, None)
+            core.KW_TRANSFORM = tr
+            try:
+                got, _ = ad.impl(c)
+            finally:
+                core.KW_TRANSFORM = None
+            if applied["n"]:
+                r3["evaluations"] += 1
+                if got != base:
+                    r3["failures"].append({"kind": "predicate", "function": "attenuated_signal_test", "case": c, "impl": base,
+                                           "impl_carrier": got, "carrier": {"time": tc},
+                                           "clause": f"flags differ when the (fractional) times are given as {tc}"})
     return adapters.merge(
         [r1, r2, r3],
         rule="series n<=5 over {missing,0,1,3} on regular (1 s, 60 s) and irregular axes x check types x test_period in "
